@@ -4,6 +4,7 @@ From Coq Require Import ZArith List Bool.
 From Coq Require Import PrimFloat.
 From PV Require Import Model.Base Model.Sched Model.Seq Model.Eom.
 From PV Require Gen.Pure Gen.PureState Model.Chan Proofs.PureEq Proofs.PureStateEq.
+From PV Require Proofs.SourceTie.
 From PV Require Import Proofs.SchedInv Proofs.EomSpec.
 Import ListNotations.
 Open Scope Z_scope.
@@ -108,3 +109,10 @@ Theorem C15_source_disable_eom :
     Gen.PureState.gen_disable_eom e n skip s = disable_eom e n skip s.
 Proof. exact PureStateEq.disable_eom_eq. Qed.
 Print Assumptions C15_source_disable_eom.
+
+(** The whole translation tie of the scheduler (see Proofs/SourceTie.v): every
+    scheduler function of the model this property's theorems rest on is equal to
+    the function regenerated from the current source. *)
+Theorem C15_source_scheduler : SourceTie.scheduler_tied.
+Proof. exact SourceTie.scheduler_source_tie. Qed.
+Print Assumptions C15_source_scheduler.
